@@ -8,6 +8,7 @@ use crate::{
     sketch::CountMinSketch,
 };
 use parking_lot::Mutex;
+#[cfg(not(transparencies_stretto_verif))]
 use std::{
     collections::{hash_map::RandomState, HashMap},
     hash::BuildHasher,
@@ -16,6 +17,14 @@ use std::{
         Arc,
     },
 };
+#[cfg(transparencies_stretto_verif)]
+use std::{
+    collections::{hash_map::RandomState, HashMap},
+    hash::BuildHasher,
+    sync::Arc,
+};
+#[cfg(transparencies_stretto_verif)]
+use stretto_verif_rt::atomic::{AtomicI64, Ordering};
 
 /// DEFAULT_SAMPLES is the number of items to sample when looking at eviction
 /// candidates. 5 seems to be the most optimal number [citation needed].
@@ -89,6 +98,9 @@ macro_rules! impl_policy {
                             min_cost = pair.cost;
                         }
                     });
+
+                    #[cfg(transparencies_stretto_verif)]
+                    crate::verif::evict_round(&sample, min_key, min_hits, inc_hits, room);
 
                     // If the incoming item isn't worth keeping in the policy, reject.
                     if inc_hits < min_hits {
@@ -495,5 +507,53 @@ impl TinyLFU {
     #[inline]
     pub fn contains(&self, kh: u64) -> bool {
         self.doorkeeper.contains(kh)
+    }
+}
+
+#[cfg(transparencies_stretto_verif)]
+impl<S: BuildHasher + Clone + 'static> PolicyInner<S> {
+    /// (used, max_cost, per-key charges in iteration order)
+    pub(crate) fn verif_snap(&self) -> (i64, i64, Vec<(u64, i64)>) {
+        (
+            self.costs.used,
+            self.costs.get_max_cost(),
+            self.costs.key_costs.iter().map(|(k, v)| (*k, *v)).collect(),
+        )
+    }
+
+    pub(crate) fn verif_new(ctrs: usize, max_cost: i64, hasher: S) -> Result<Arc<Mutex<Self>>, CacheError> {
+        Self::with_hasher(ctrs, max_cost, hasher)
+    }
+
+    pub(crate) fn verif_admit(&self) -> &TinyLFU {
+        &self.admit
+    }
+
+    pub(crate) fn verif_admit_mut(&mut self) -> &mut TinyLFU {
+        &mut self.admit
+    }
+}
+
+#[cfg(transparencies_stretto_verif)]
+impl TinyLFU {
+    /// (w, samples)
+    pub(crate) fn verif_window(&self) -> (usize, usize) {
+        (self.w, self.samples)
+    }
+
+    pub(crate) fn verif_sketch(&self) -> &CountMinSketch {
+        &self.ctr
+    }
+
+    pub(crate) fn verif_doorkeeper(&self) -> &Bloom {
+        &self.doorkeeper
+    }
+}
+
+#[cfg(transparencies_stretto_verif)]
+impl<S: BuildHasher + Clone + 'static> SampledLFU<S> {
+    /// (used, per-key charges in iteration order)
+    pub(crate) fn verif_snap(&self) -> (i64, Vec<(u64, i64)>) {
+        (self.used, self.key_costs.iter().map(|(k, v)| (*k, *v)).collect())
     }
 }
